@@ -173,6 +173,9 @@ pub enum Action {
     Finish { exec: usize, ok: bool },
     Advance { secs: u64 },
     ArmLaunchFail { w: Wid },
+    /// The worker's own clock is `secs` ahead of what the harness accounts for (a stalled worker
+    /// process whose time-limit timer has not fired yet). Never generated; used by witnesses.
+    AgeWorker { w: Wid, secs: u64 },
     Req { client: usize, req: ClientReq },
     AnswerFlush,
     AnswerPrune,
